@@ -123,6 +123,20 @@ Print Assumptions http1_session_finishes_within_its_bound.
 Example ex_unbounded_close : h1_close false 10000 None = None /\ h1_close true 10000 None = Some (10000%N, false).
 Proof. split; reflexivity. Qed.
 
+(* "winds down gracefully (HTTP/2 GOAWAY ...)": the bound above is for HTTP/1.1 sessions only. A notified HTTP/2 session sends GOAWAY
+   and its streams in flight run to their end, however long that takes: the session finishes exactly when the last of them has ended,
+   and none is cut *)
+Theorem http2_streams_in_flight_run_to_their_end :
+  SESSION_CLOSE_BOUND_IS_FOR_HTTP1_ONLY = true
+  /\ (forall streams_end_at,
+        h2_close (negb SESSION_CLOSE_BOUND_IS_FOR_HTTP1_ONLY) HTTP1_GRACEFUL_SHUTDOWN_TIMEOUT_MS streams_end_at = (streams_end_at, true)).
+Proof. split; [exact eq_refl|]. intros t. change SESSION_CLOSE_BOUND_IS_FOR_HTTP1_ONLY with true. reflexivity. Qed.
+Print Assumptions http2_streams_in_flight_run_to_their_end.
+
+(* as found after the bound had been put around the close of every protocol: a download that needed 12 s more was cut at 10 s *)
+Example ex_http2_session_cut : h2_close true 10000 12000 = (10000%N, false) /\ h2_close false 10000 12000 = (12000%N, true).
+Proof. split; reflexivity. Qed.
+
 Theorem code_facts :
   SHUTDOWN_CHANNELS_AS_MODELLED = true /\ SHUTDOWN_WAIT_AS_MODELLED = true /\ SHUTDOWN_PARTICIPANTS_REGISTER_BOTH = true
   /\ SESSIONS_SAY_GOODBYE_WHEN_FEED_STOPS = true /\ MAIN_AWAITS_COMPLETION = true.
